@@ -36,10 +36,12 @@ package lazy
 
 import (
 	"errors"
+	"unsafe"
 
 	"github.com/coregx/coregex/nfa"
 	"github.com/coregx/coregex/prefilter"
 	"github.com/coregx/coregex/simd"
+	"github.com/coregx/coregex/verifhook"
 )
 
 // DFA is a Lazy DFA engine that performs on-demand determinization.
@@ -1561,6 +1563,11 @@ func (d *DFA) checkWordBoundaryMatch(state *State, nextByte byte) bool {
 // Start states are cached in the StartTable for O(1) access.
 // If not cached, the state is computed and stored for future use.
 func (d *DFA) getStartState(cache *DFACache, haystack []byte, pos int, anchored bool) *State {
+	if verifhook.On {
+		// a search (re)starts on this cache: the cache is per-search mutable scratch
+		verifhook.Emit("scr.begin", int(uintptr(unsafe.Pointer(cache))), 3)
+		verifhook.Gate("scr", uintptr(unsafe.Pointer(cache)))
+	}
 	// Determine start kind based on position and previous byte
 	var kind StartKind
 	if pos == 0 {
